@@ -2,8 +2,8 @@
 """Run the checks against every seeded mutation (on a scratch copy of /repo) and tabulate.
 usage: seedmatrix.py [ids...]   -> writes seeded/RESULTS.json"""
 import os, sys, json, subprocess, shutil, re
-VERIF='/verif'
-SCR='/var/tmp/verif-seedrepo'
+VERIF=os.path.dirname(os.path.dirname(os.path.abspath(__file__)))
+SCR='/var/tmp/verif-seedrepo.%d' % os.getpid()
 def sh(cmd, **kw): return subprocess.run(cmd, shell=True, capture_output=True, text=True, **kw)
 ids = sys.argv[1:] or sorted(os.listdir(VERIF+'/seeded'))
 ids=[i for i in ids if os.path.isdir(VERIF+'/seeded/'+i)]
